@@ -313,21 +313,30 @@ def main(argv):
         return 0
     contract = load_contract(pid)
     res = Result()
-    try:
-        for tpl in getattr(contract, 'VERUS', []):
-            run_verus_template(tpl, repo, res, pid, tier)
-        if tier == 'thorough':
-            for tpl in getattr(contract, 'VERUS_THOROUGH', []):
-                run_verus_template(tpl, repo, res, pid, tier)
+    # the three stages are independent: a template that cannot be re-established (undecided) does not keep the Kani harnesses
+    # or the text anchors of the same property from running
+    def stage(f):
+        try:
+            f()
+        except (V.Undecided, LostAnchor) as e:
+            res.undecided.append(str(e))
+        except Exception:
+            res.undecided.append('internal error: ' + traceback.format_exc())
+
+    def verus_stage():
+        tpls = list(getattr(contract, 'VERUS', [])) + (list(getattr(contract, 'VERUS_THOROUGH', [])) if tier == 'thorough' else [])
+        for tpl in tpls:
+            stage(lambda: run_verus_template(tpl, repo, res, pid, tier))
+
+    def kani_stage():
         kspec = list(getattr(contract, 'KANI', []))
         if tier == 'thorough':
             kspec += list(getattr(contract, 'KANI_THOROUGH', []))
         if kspec:
             K.run_harnesses(kspec, repo, res, pid, tier)
-        if hasattr(contract, 'extra'):
-            contract.extra(res, repo, tier, seed)
-    except (V.Undecided, LostAnchor) as e:
-        res.undecided.append(str(e))
-    except Exception:
-        res.undecided.append('internal error: ' + traceback.format_exc())
+
+    verus_stage()
+    stage(kani_stage)
+    if hasattr(contract, 'extra'):
+        stage(lambda: contract.extra(res, repo, tier, seed))
     return finish(pid, tier, seed, res, contract, t0, repo)
